@@ -362,6 +362,19 @@ impl Check for C19 {
                             if v == V::Reject && ctx == Ctx::Disconnect && wrote {
                                 out.violations.push(viol("C19", "C19/closing-handle/disconnect/refused-but-wrote", format!("disconnect with the illegal property {:?} returned {:?} but wrote {} bytes", pc, op.outcome, op.out_after - op.out_before)));
                             }
+                            // ... and a request refused here is not kept by the session either
+                            // (it would go out on the next connection): retained table, send
+                            // quota, identifier counter and operation handles as before
+                            if ctx != Ctx::Disconnect && matches!(op.outcome, Outcome::Err(_)) {
+                                if let (Some(b), Some(a)) = (op.snap_before.as_ref(), op.snap_after.as_ref()) {
+                                    out.count("no_trace_comparisons", 1);
+                                    let ids = |s: &Snap| s.tx.retained.iter().map(|e| (e.packet_id, e.len)).collect::<Vec<_>>();
+                                    let statuses = pb.zip(pa).map(|(x, y)| (x.status.clone(), y.status.clone()));
+                                    if ids(b) != ids(a) || b.send_quota != a.send_quota || b.next_packet_id != a.next_packet_id || statuses.is_some_and(|(x, y)| x != y) {
+                                        out.violations.push(viol("C19", format!("C19/closing-handle/{:?}/left-trace", ctx), format!("{:?} with {:?} while an earlier disconnect() is pending returned {:?} but left a trace: retained {:?} -> {:?}, quota {} -> {}, next identifier {} -> {}", ctx, pc, op.outcome, ids(b), ids(a), b.send_quota, a.send_quota, b.next_packet_id, a.next_packet_id)));
+                                    }
+                                }
+                            }
                             // nothing of the request reaches the wire
                             let c = &t.w.conns[0];
                             if c.out.packets.iter().any(|k| matches!(&k.pkt, CPacket::Publish { topic, .. } if topic == "c19") || matches!(&k.pkt, CPacket::Subscribe { .. } | CPacket::Unsubscribe { .. }) || matches!(&k.pkt, CPacket::Disconnect { props, .. } if !props.is_empty())) {
